@@ -540,6 +540,8 @@ def b_len(it, v):
         return v.length()
     if isinstance(v, SymArr):
         return v.length
+    if hasattr(v, 'sym_len') and not isinstance(v, (Obj, Sym)):
+        return v.sym_len()         # a contract-side collection of which only the (possibly symbolic) size is known
     if isinstance(v, Sym):
         if v.kind == 'str':
             return wrap(z3.Length(v.e))
@@ -955,6 +957,8 @@ def is_pure_callable(f):
     if isinstance(f, type) and f in (str, int, float, bool, list, dict, tuple, set, frozenset, bytes):
         return True
     owner = getattr(f, '__self__', None)
+    if owner is not None and type(owner).__module__ == 'datetime' and not isinstance(owner, type):
+        return True          # methods of immutable datetime / timedelta values
     if owner is not None and (type(owner).__module__ or '').split('.')[0] in ('networkx',):
         # read-only queries on a concrete graph object of a trusted library (subgraph, predecessors, nodes, ...)
         # (every path re-runs the harness from the start, so native mutation of such an object is local to the path)
